@@ -229,6 +229,18 @@ Theorem initial_moles_from_partial_pressures :
 Proof. exact T_initial_moles_from_partial_pressures. Qed.
 Print Assumptions initial_moles_from_partial_pressures.
 
+(* --- gases as EQUILIBRIUM_PHASES / solution phase boundaries: adjust_setup_pure_phases and adjust_setup_solution (prep.cpp) call
+       calc_PR(phase_ptrs, p, t, 0) unless the fugacity coefficient cached on the phase is valid (pr_in) and was computed for the SAME
+       pressure and the SAME temperature; i.e. the cached phi is reused only if pr_in <> 0, p = pr_p and t = pr_tk --- *)
+Theorem cached_phi_reused_only_for_same_pressure_and_temperature :
+  (forall pr_in p pr_p t pr_tk,
+     evalB (env_of [pr_in; p; pr_p; t; pr_tk]) pp_phi_cache_guard <-> (pr_in = 0 \/ p <> pr_p \/ t <> pr_tk)) /\
+  (forall pr_in p pr_p t pr_tk,
+     evalB (env_of [pr_in; p; pr_p; t; pr_tk]) sb_phi_cache_guard <-> (pr_in = 0 \/ p <> pr_p \/ t <> pr_tk)) /\
+  pp_calc_PR_call = "calc_PR(phase_ptrs, p, t, 0)"%string /\ sb_calc_PR_call = "calc_PR(phase_ptrs, p, t, 0)"%string.
+Proof. exact T_cached_phi_reused_only_for_same_pressure_and_temperature. Qed.
+Print Assumptions cached_phi_reused_only_for_same_pressure_and_temperature.
+
 (* --- histories on one instance: phase_init - called by phase_alloc for a new phase and by phase_store for an EXISTING phase
        that a PHASES block redefines - resets everything the gas code caches in the phase record: pr_si_f (log10 phi, subtracted
        by calc_gas_pressures for ideal gases too), pr_phi := 1, pr_p, pr_tk, pr_a, pr_b, pr_alpha, pr_aa_sum2, pr_in := false,
